@@ -13,6 +13,8 @@ package main
 //   limits and token caps respected by every op that succeeded.
 
 import (
+	layer2keeper "github.com/KiraCore/sekai/x/layer2/keeper"
+	layer2types "github.com/KiraCore/sekai/x/layer2/types"
 	"fmt"
 	"math/big"
 	"sort"
@@ -57,6 +59,7 @@ type c11Env struct {
 	trace   []string
 	modAddr sdk.AccAddress
 	tol     map[string]string // witness runs only: oracle key -> known-finding key it is expected to raise
+	extBurnt map[string]*big.Int // basket denom -> amount its holders burnt through layer2 MsgMintBurnTx (outside the basket module)
 	div     int64             // default mint amounts are log-uniform up to balance/div (1000: retail; 4: whale episodes)
 }
 
@@ -328,7 +331,13 @@ func (e *c11Env) checkInv(before, after c11Snap, what string) {
 	for id, b := range after.baskets {
 		bd := b.GetBasketDenom()
 		if after.supply[bd].Cmp(b.Amount.BigInt()) != 0 {
-			e.fail("C11/invariant/supply-ne-recorded-amount", fmt.Sprintf("after %s: basket %d bank supply of %s = %s, recorded amount = %s", what, id, bd, after.supply[bd], b.Amount))
+			msg := fmt.Sprintf("after %s: basket %d bank supply of %s = %s, recorded amount = %s", what, id, bd, after.supply[bd], b.Amount)
+			if ext := e.extBurnt[bd]; ext != nil && subI(b.Amount.BigInt(), after.supply[bd]).Cmp(ext) == 0 {
+				// exactly what holders burnt through the layer2 module is missing from the supply: the recorded finding
+				e.r.Known("C11/l2-burn/supply-below-recorded-amount", msg+fmt.Sprintf(" (holders burnt %s through layer2 MsgMintBurnTx)", ext))
+			} else {
+				e.fail("C11/invariant/supply-ne-recorded-amount", msg)
+			}
 		}
 		for _, t := range b.Tokens {
 			if t.Amount.IsNegative() {
@@ -553,6 +562,45 @@ func (e *c11Env) doBurn(a int, id uint64, c sdk.Coin) bool {
 	}
 	e.observe(id)
 	return err == nil
+}
+
+// doL2: the layer2 mint / burn messages aimed at the basket's own denomination (any account may send them)
+func (e *c11Env) doL2(kind string, a int, id uint64, amt *big.Int) {
+	b, err := e.k.GetBasketById(e.ctx, id)
+	if err != nil {
+		return
+	}
+	bd := b.GetBasketDenom()
+	before := e.snap(a)
+	l2 := layer2keeper.NewMsgServerImpl(e.w.app.Layer2Keeper)
+	err = withCache(e.ctx, func(cc sdk.Context) error {
+		var er error
+		if kind == "l2issue" {
+			_, er = l2.MintIssueTx(sdk.WrapSDKContext(cc), &layer2types.MsgMintIssueTx{Sender: e.w.addrs[a].String(), Denom: bd, Amount: sdkmath.NewIntFromBigInt(amt), Receiver: e.w.addrs[a].String()})
+		} else {
+			_, er = l2.MintBurnTx(sdk.WrapSDKContext(cc), &layer2types.MsgMintBurnTx{Sender: e.w.addrs[a].String(), Denom: bd, Amount: sdkmath.NewIntFromBigInt(amt)})
+		}
+		return er
+	})
+	line := fmt.Sprintf("basket %s a=%d %s:%s", kind, a, bd, amt.String())
+	e.op(line, okErr(err))
+	e.r.Count(kind + ":" + okErr(err))
+	e.r.Case(line+okErr(err), err == nil)
+	if kind == "l2burn" && err == nil {
+		if e.extBurnt == nil {
+			e.extBurnt = map[string]*big.Int{}
+		}
+		if e.extBurnt[bd] == nil {
+			e.extBurnt[bd] = new(big.Int)
+		}
+		e.extBurnt[bd].Add(e.extBurnt[bd], amt)
+	}
+	after := e.snap(a)
+	e.checkInv(before, after, line)
+	if kind == "l2issue" && err == nil {
+		e.fail("C11/l2-issue/basket-tokens-minted-outside-the-basket", fmt.Sprintf("%s: %s %s were issued by the layer2 module to account %d, no reserve was deposited", line, amt, bd, a))
+	}
+	e.observe(id)
 }
 
 func c11Pairs(ps []baskettypes.SwapPair) string {
@@ -1076,6 +1124,25 @@ func c11Witness(r *Rec) {
 	e.doBurn(2, id, sdk.NewInt64Coin(b.GetBasketDenom(), 1000))
 }
 
+// Lean: C11.l2_burn_supply_eq_counterexample - a holder burns basket tokens through layer2 MsgMintBurnTx: the bank supply
+// falls, the basket record does not (C11/l2-burn/supply-below-recorded-amount)
+func c11WitnessL2Burn(r *Rec) {
+	e := newC11Env(r)
+	r.Mark("witness C11/l2-burn/supply-below-recorded-amount (Sekai.Props.C11.l2_burn_supply_eq_counterexample)")
+	lim := sdk.NewInt(1_000_000_000)
+	id, ok := e.doCreate(baskettypes.Basket{Suffix: "usd", Amount: sdk.ZeroInt(), SwapFee: sdk.ZeroDec(), SlipppageFeeMin: sdk.ZeroDec(), TokensCap: sdk.OneDec(),
+		LimitsPeriod: 86400, MintsMin: sdk.OneInt(), MintsMax: lim, BurnsMin: sdk.OneInt(), BurnsMax: lim, SwapsMin: sdk.OneInt(), SwapsMax: lim,
+		Tokens: []baskettypes.BasketToken{{Denom: "ukex", Weight: sdk.OneDec(), Amount: sdk.ZeroInt(), Deposits: true, Withdraws: true, Swaps: true}}})
+	if !ok {
+		r.Notes = append(r.Notes, "C11 witness: CreateBasket failed")
+		return
+	}
+	e.doMint(1, id, sdk.NewCoins(sdk.NewInt64Coin("ukex", 1000)))
+	e.doMint(2, id, sdk.NewCoins(sdk.NewInt64Coin("ukex", 1000)))
+	e.doL2("l2issue", 3, id, big.NewInt(500)) // refused
+	e.doL2("l2burn", 1, id, big.NewInt(400))  // accepted: supply 1600, recorded amount 2000
+}
+
 // Lean: C11.swap_exact_counterexample — Dec.Quo rounds 0.9999999999999999995 up to 1: 2 ukex (value 2) buy 1 ueth
 // (value 2.000000000000000001). The generic swap oracle allows exactly this 1e-18 slack per pair and nothing more.
 func c11WitnessSwapRounding(r *Rec) {
@@ -1196,6 +1263,7 @@ func runC11(r *Rec) {
 	c11WitnessEditAmount(r)
 	c11WitnessPeriodExtension(r)
 	c11WitnessPeriodOverflow(r)
+	c11WitnessL2Burn(r)
 	episodes, steps := 120, 80
 	if r.Tier == "thorough" {
 		episodes, steps = 1500, 160
@@ -1261,8 +1329,27 @@ func runC11(r *Rec) {
 				e.genBurn(id)
 			case x < 84:
 				e.genSwap(id)
-			case x < 93:
+			case x < 91:
 				e.setTime(e.now + int64([]int{1, 2, 3, 5, 7, 20, 61, 86400}[r.Rng.Intn(8)]))
+			case x < 93:
+				// the layer2 mint / burn messages aimed at the basket token, by a holder or by the outsider 0
+				a := e.holders[r.Rng.Intn(len(e.holders))]
+				if r.Rng.Intn(3) == 0 {
+					a = 0
+				}
+				kind := "l2issue"
+				amt := e.randAmt(big.NewInt(1_000_000_000))
+				if r.Rng.Intn(3) == 0 {
+					kind = "l2burn"
+					if b, err := e.k.GetBasketById(e.ctx, id); err == nil {
+						if have := e.bal(e.w.addrs[a], b.GetBasketDenom()); have.Sign() > 0 {
+							amt = e.randAmt(have)
+						}
+					}
+				}
+				if amt.Sign() > 0 {
+					e.doL2(kind, a, id, amt)
+				}
 			case x < 97:
 				e.genEdit(id)
 			case x < 99:
